@@ -130,6 +130,14 @@ def run(ctx, crate):
     if len(parsed) == 1:
         cfg_t = parsed[0].result
     obs.append(Ob("R14.select", on.path, "one toml document is parsed", cfg_t is not None, found=len(parsed)))
+    if cfg_t is not None:
+        src = parsed[0].args[0] if parsed[0].args else None
+        raw = T.strip_unwrap(src) if src is not None else None
+        toml_arg = ("proj", args_v_early(sites), ("f", 1, "toml")) if args_v_early(sites) is not None else None
+        ok_src = raw is not None and T.is_call(raw, "fs::read_to_string") and raw[2] and toml_arg is not None and T.strip_unwrap(raw[2][0]) == toml_arg
+        obs.append(Ob("R14.select", on.path, "the configuration file named by --toml is parsed as it is (no rewriting of its text)", bool(ok_src),
+                      expected="toml::from_str(read_to_string(--toml)?)", found=show(src)[:120] if src is not None else None,
+                      example="a configuration whose path contains an upper-case letter"))
     args_t = [s for s in sites if s.path.endswith("Parser::parse")]
     args_v = args_t[0].result if args_t else None
     for cat, strfn, allfn in (("optimizations", "str_to_optimization", "get_all_optimizations"), ("vulnerabilities", "str_to_vulnerability", "get_all_vulnerabilities"),
@@ -218,6 +226,11 @@ def run(ctx, crate):
                     prec_ok = prec_ok and ("toml" not in kinds or all(any(a.startswith("!is(") and "toml" in a or a.startswith("!is(") and "?" not in a and a != "!" + flag_some for a in c) for c in g))
         obs.append(Ob("R14.path", on.path, "precedence flag > file > default", prec_ok and len(kinds) == 3, found=desc))
     return obs
+
+
+def args_v_early(sites):
+    a = [s for s in sites if s.path.endswith("Parser::parse")]
+    return a[0].result if a else None
 
 
 def R_lit(t):
